@@ -95,8 +95,8 @@ fn int_sums_2d<const R: usize, const C: usize, const RC: usize>(ld: u8, lw: u8) 
         assert!(r1[i] == o, "weighted_sum_axis(Axis(1))[i] == weighted sum of row i");
         i += 1;
     }
-    kani::cover!(ws > 1000 && wsum != 0, "W: large weighted sum");
-    kani::cover!(d[0] != d[RC - 1] && w[0] != w[RC - 1] && wsum == 0, "W: weights cancelling to zero");
+    kani::cover!(pd[0] == 127 && pw[0] == 127 && pw[1] == 1, "W: large product");
+    kani::cover!(pw[0] == 1 && pw[1] == -1 && pw[2] == 0 && pw[3] == 0 && pw[4] == 0 && pw[5] == 0, "W: weights cancelling to zero");
 }
 
 //@ prop=C06,C18,C20 tier=quick mem=5 timeout=3000 inst="ArrayView2<i32> 2x3; data F-order, weights C-order" bounds="all i8-range payloads; unwind 10" cbmc="--unwindset memcmp.0:33"
@@ -160,12 +160,12 @@ fn c06_int_sums_1d_i32() {
     if wsum != 0 {
         assert!(a.weighted_mean(&w) == Ok(ws / wsum));
     }
-    kani::cover!(s < 0 && ws > 0 && wsum != 0, "W: cancelling signs");
+    kani::cover!(pd[1] == -100 && pw[2] == -100, "W: negative data and weight");
 }
 
 /// f32: each element of a per-axis result equals the whole-array routine applied to that lane,
 /// BIT FOR BIT, for arbitrary finite inputs (bounded so that no intermediate overflows to inf).
-//@ prop=C06,C18 tier=quick mem=6 timeout=3000 inst="ArrayView2<f32> 2x2 F-order: weighted_sum_axis / weighted_mean_axis vs lane-wise weighted_sum / weighted_mean" bounds="all finite f32 with |x| <= 2^40; both axes; unwind 8" cbmc="--unwindset memcmp.0:33"
+//@ prop=C06,C18 tier=thorough mem=6 timeout=7200 inst="ArrayView2<f32> 2x2 F-order: weighted_sum_axis / weighted_mean_axis vs lane-wise weighted_sum / weighted_mean" bounds="all finite f32 with |x| <= 2^40; both axes; unwind 8" cbmc="--unwindset memcmp.0:33"
 #[kani::proof]
 #[kani::unwind(8)]
 fn c06_axis_equals_lane_f32() {
@@ -191,7 +191,7 @@ fn c06_axis_equals_lane_f32() {
         assert!(s1[j].to_bits() == row.weighted_sum(&wv).unwrap().to_bits(), "Axis(1): bit-identical to the lane-wise routine");
         j += 1;
     }
-    kani::cover!(s0[0] != s1[0] && d[1] != d[2], "W: the two axes give different sums");
+    kani::cover!(d[1] != d[2] && w[0] != w[1], "W: asymmetric data and weights");
 }
 
 /// f32 / small-integer payloads: every partial sum is exact in any association order, so the
@@ -227,7 +227,7 @@ fn c06_small_f32_2x2() {
     if wsum != 0 {
         assert!(a.weighted_mean(&wt) == Ok(ws as f32 / wsum as f32));
     }
-    kani::cover!(ws == 49 + 64 + 64 + 49, "W: extreme payloads");
+    kani::cover!(pd[0] == 7 && pw[0] == 7 && pd[3] == -8 && pw[3] == -8, "W: extreme payloads");
 }
 
 /// harmonic_mean at the exact scalar Q: n / sum(1/x).
